@@ -417,6 +417,9 @@ fn agm_elliptic_perimeter(accuracy: f64, radii: Vec2) -> f64 {
             // remaining series. We will then underestimate the true value, but by no more than
             // `accuracy`.
             sum -= term;
+            // The series wants the limit of `a` and `g`, which lies between them: the next
+            // arithmetic mean is within c_(n+1)^2 / (2 a) of it, the current `a` is not.
+            a = (a + g) / 2.;
             break;
         }
 
